@@ -43,4 +43,11 @@ CLAIMED = {
               "of every constituent file system are compared after every step, which also shows that nothing outside dir is read or changed differently. Parents: mem, mount.FS, os.FS, an Open-only FS, a Sub view. Sampled exploration."),
         note="dir above a mount point is excluded while known finding C07:sub-above-mountpoint reproduces; symlinks not generated; error paths of MkdirAll/RemoveAll and of handle-level fallbacks are compared by class only",
     ),
+    "C06": dict(
+        technique="twin-world state-machine property testing with rapid against an independent reference router; model-based AddMount sequences; harness-gated concurrent AddMount (plus -race leg)",
+        text=("Generated mount configurations (0-4 points incl. nested and string-prefix look-alikes) and histories: every op is routed by a harness-side longest-whole-element-prefix router and executed through mount.FS in one world and "
+              "directly on the selected file system in the other; results and the snapshots of all constituent file systems must match, Mount() is re-evaluated under sampled table iteration orders, cross-mount renames are judged by a "
+              "before/after predicate, AddMount sequences by a model, and concurrent AddMount of one point by a gate that forces the check-then-store window. Sampled exploration; the window forcing is deterministic for the gated call only."),
+        note="iteration orders of the mount table are sampled; a cross-mount rename whose copy fails midway (destination already truncated) is not reachable without a failing destination FS and is not injected here",
+    ),
 }
